@@ -165,7 +165,8 @@ Definition helpers_of (s : wstate) : list bline :=
        BT (bs "set " ++ q ++ bs "!%1!_!_i!=!_v!" ++ q);
        BT (bs "set /A " ++ q ++ bs "_i=!_i!+1" ++ q);
        BGoto (bs "_sch_loop"); BClose;
-       BCall (bs "_sls") (bs "!%1! !_i!") ] else [])
+       BCall (bs "_slg") (bs "!%1!");
+       BT (bs "if !_i! gtr !_len! call :_sls !%1! !_i!") ] else [])
   ++ (if sah then add_helper (bs "slice assignment") (bs "_sah")
      [ BCall (bs "_slg") (bs "!%1!");
        BT (bs "set " ++ q ++ bs "_i=!_len!" ++ q);
@@ -392,8 +393,10 @@ Definition batch_conv : converter wstate bytes :=
        let '(h, s1) := w_next_helper s in
        (w_eval s1 h false, w_add (BT (bs "set /p " ++ q ++ h ++ bs "=" ++ prompt ++ q)) s1))
     (* copy *) (fun dst src global s =>
-       let s1 := w_call (bs "_sch") [] [w_var_name s dst global; src] (w_set Fsch s) in
-       (bs "!_len!", w_call (bs "_slg") [] [w_eval s1 dst global] s1))
+       let '(h, s0) := w_next_helper s in
+       let s1 := w_call (bs "_sch") [] [w_var_name s0 dst global; src] (w_set Fsch s0) in
+       let s2 := w_call (bs "_slg") [] [src] s1 in
+       (w_eval s2 h false, w_add (w_assign s2 h (bs "!_len!") false) s2))
     (* exists *) (fun p s =>
        let '(h, s1) := w_next_helper s in
        (w_eval s1 h false,
